@@ -109,6 +109,9 @@ class Body(Protocol):
         self.rec["data"] += data
         if self.rec["lost"]:
             self.rec["data_after_lost"] = True
+        hook = self.rec.get("on_data")
+        if hook is not None:
+            hook(self)
         if self.pause_p and self.sim.draw_bool(self.pause_p, "pause_in_data"):
             self.sim.probe("body_paused")
             self.transport.pauseProducing()
@@ -387,6 +390,26 @@ def one_round(sim, proto, t, round_no, flags, pre=None, on_body_lost=None):
         with sim.guard("raised", "connectionLost"):
             t.lose(reason)
 
+    # Family: the body consumer hangs up from inside its own dataReceived and the transport reports the loss at once
+    # (in-memory / test transports do; ITransport does not forbid it), i.e. connectionLost reaches the client protocol
+    # re-entrantly beneath the dataReceived call that delivered those body bytes.  Only for Content-Length and
+    # close-delimited bodies, and only once the consumer holds every body byte the protocol has been given, so that the
+    # model's position-based expectations stay exact.
+    hang_target = None
+    if framing in ("cl", "close") and spec["body"] and sim.draw_bool(0.12, "consumer_hangs_up"):
+        hang_target = len(spec["body"]) if sim.draw_bool(0.7, "hang_at_end") else sim.draw_int(1, len(spec["body"]), "hang_after")
+
+    def on_data(body):
+        if hang_target is None or lost[0] is not None or len(rec["data"]) < hang_target:
+            return
+        if rec["data"] != seg.body_received(pos):
+            return
+        sim.probe("consumer_hung_up_inside_dataReceived")
+        sim.event("consumer-hangs-up", len(rec["data"]))
+        body.transport.stopProducing()
+        lose()
+
+    rec["on_data"] = on_data
     check()
     for _ in range(2000):
         sim.step(5000)
